@@ -201,6 +201,13 @@ WithErr(s, cond, data, env) ==
 \* native Go error).  Message texts are opaque to the specification: "#msg" matches any value.
 Msg == <<VStr("#msg")>>
 Fail(s, env) == WithErr(s, "error", Msg, env)
+\* REFERENCE MEANING (C18), where the code is known to differ: a call that was collapsed into an earlier frame by
+\* tail-call elimination and is then REJECTED by the binder is located at its own call expression (site), not at the
+\* call site of the frame that was reused.  The location the code reports (the reused frame's environment register)
+\* travels in the error's p field so that the check can tell this finding from any other difference.
+FailAt(s, env, site) ==
+  [s EXCEPT !.neid = @ + 1, !.estk = Append(@, StackCopy(s)),
+            !.ctl = Ret([V("err", s.neid + 1, "error", "", FALSE, Msg) EXCEPT !.i = site, !.p = s.envs[env].loc])]
 
 \* ------------------------------------------------------------- checkLimits
 \* returns <<state', ok>>; one step is charged, then the budget, then the context poll
@@ -366,7 +373,7 @@ Dispatch(s) ==
       \* that frame's package)
       npop == IF kind = "fun" /\ f.n > 0 /\ s.cfg.tro THEN TerminalFID(s.frames, fid) ELSE 0 IN
   IF s.cfg.maxphys > 0 /\ Len(s.frames) >= s.cfg.maxphys THEN Fail(s, env)
-  ELSE IF npop > 0 THEN [s EXCEPT !.ctl = Ret(VMark(npop, fid, f, args))]
+  ELSE IF npop > 0 THEN [s EXCEPT !.ctl = Ret([VMark(npop, fid, f, args) EXCEPT !.p = s.envs[env].loc])]   \* p: the tail call's own position
   ELSE [s EXCEPT !.frames = Append(@, [Frame(fid, FrameName(s, f), s.envs[env].loc) EXCEPT !.tro = (kind = "macro")]),
                  !.k = Append(@, [t |-> "call", kind |-> kind, f |-> f, env |-> env, site |-> s.envs[env].loc]),
                  !.ctl = [mode |-> "call", f |-> f, args |-> args, env |-> env]]
@@ -715,7 +722,7 @@ DoCall(s) ==
   THEN \* ---- lambda: bind into a copy of the function's environment, swap package, run the body
        LET fd == s.funs[f.n]
            b  == BindReq(fd.formals, args, EmptyVars) IN
-       IF ~b.ok THEN Fail(s, env)
+       IF ~b.ok THEN (IF "site" \in DOMAIN s.ctl THEN FailAt(s, env, s.ctl.site) ELSE Fail(s, env))
        ELSE LET envs2 == Append(s.envs, [vars |-> b.vars, parent |-> fd.env, loc |-> s.envs[fd.env].loc])
                 eid == Len(envs2) IN
             [s EXCEPT !.envs = envs2,
@@ -1305,7 +1312,7 @@ DoReturn(s) ==
                             ch == Charge(s1, c.env) IN
                         IF ~ch[2] THEN [PopCall(ch[1]) EXCEPT !.ctl = ch[1].ctl]
                         ELSE [ch[1] EXCEPT !.k = SetTop(@, [c EXCEPT !.f = v.c[1]]),
-                                           !.ctl = [mode |-> "call", f |-> v.c[1], args |-> Rest(v.c), env |-> c.env]]
+                                           !.ctl = [mode |-> "call", f |-> v.c[1], args |-> Rest(v.c), env |-> c.env, site |-> v.p]]
               ELSE [PopCall(s) EXCEPT !.ctl = Ret([v EXCEPT !.n = @ - 1])]
          ELSE PopCall(s)
     [] c.t = "op" ->
